@@ -1,9 +1,15 @@
 import Pearl.Proofs.FsLemmas
+import Pearl.Proofs.AcctHarm
 /-
 C07: blob files are append-only logs, on the file / trace layer (L6, `Pearl/Model/Fs.lean`).
 
 `Fs.run dup limit klen unc rs ops` = state and trace after `init` on an empty directory and an arbitrary
 list of driver-level operations.
+
+Second half of the file: the directory level (`Pearl/Model/Acct.lean`: work directory, `corrupted` directory, restarts
+with quarantine / `ignore_corrupted`) — `dir_blob_files_only_grow`, `dir_blob_files_never_vanish`, `dir_ids_never_reused`,
+`dir_quarantine_never_replaces`, `dir_ignored_left_in_place`, `dir_index_file_fate`, and the counter-models
+`dir_c074_reuses_quarantined_id`, `dir_late_reservation_on_empty_dir`, `dir_c073_reuses_id_of_leftover_file`.
 -/
 namespace Pearl
 open Fs
@@ -143,5 +149,429 @@ example : replay (fun _ => none) [.create (.blob 0), .write (.blob 0) 0 20, .cre
 example : (content 4 { id := 0, recs := [] }).length = 20 := by decide +kernel
 example : ∃ b ∈ (run true 100 4 true true C07Demo.ops).1.store.blobs, b.id = 0 ∧ b.recs.length = 3 := by
   decide +kernel
+
+/-! ## the directory level: work directory, `corrupted` directory, in-memory view (`Pearl/Model/Acct.lean`)
+
+`Acct.run c dup ops` = the directory-level state after `init` on an empty directory and an arbitrary list of
+operations, restarts with damaged blob files under both settings of `ignore_corrupted` included; the model is run in
+lock-step with the implementation (`driver_acct_is_run`, C15).  `Acct.runG` is the same run with ghost state
+(`Pearl/Proofs/AcctHarm.lean`): the log of the ids handed to `iodriver.create`, and the length every quarantined file
+had when it was renamed into `corrupted` — `Acct.stepC` is `Acct.step` with these two outputs, and its state IS that of
+`Acct.step`. -/
+
+/-- the ghost run carries the state of `Acct.run`, and logs what `Acct.stepC` reports -/
+theorem dir_ghost_run (c : Acct.Cfg) (dup : Bool) (ops : List Acct.AOp) (op : Acct.AOp) :
+    (Acct.runG c dup ops).st = Acct.run c dup ops ∧
+      (Acct.stepC c (Acct.run c dup ops) op).st = Acct.step c (Acct.run c dup ops) op ∧
+      (Acct.runG c dup (ops ++ [op])).created =
+        (Acct.runG c dup ops).created ++ (Acct.stepC c (Acct.run c dup ops) op).created := by
+  refine ⟨Acct.runG_st c dup ops, Acct.stepC_st c _ op, ?_⟩
+  rw [Acct.runG_append, ← Acct.runG_st c dup ops]
+  rfl
+
+/-- (1) Blob files only grow.  Along every history, whatever comes later (`more`): a blob file that is in the work
+    directory now and later is later at least as long; and for a blob held now and later (same id) the record list
+    is extended, both files are exactly as long as the record lists say (`contentLen` = blob header + records), a
+    proper extension makes the file strictly longer, and the byte content (L5 `content`) of now is a prefix of the
+    later one — never shortened, never rewritten. -/
+theorem dir_blob_files_only_grow (c : Acct.Cfg) (dup : Bool) (ops more : List Acct.AOp) :
+    let s := Acct.run c dup ops
+    let s' := Acct.run c dup (ops ++ more)
+    (∀ i l l', Acct.get s.dir.blobs i = some l → Acct.get s'.dir.blobs i = some l' → l ≤ l') ∧
+      (∀ b ∈ s.store.blobs, ∀ b' ∈ s'.store.blobs, b'.id = b.id →
+        b.recs <+: b'.recs ∧
+        Acct.get s.dir.blobs b.id = some (contentLen c.klen b.recs) ∧
+        Acct.get s'.dir.blobs b.id = some (contentLen c.klen b'.recs) ∧
+        contentLen c.klen b.recs ≤ contentLen c.klen b'.recs ∧
+        (b.recs ≠ b'.recs → contentLen c.klen b.recs < contentLen c.klen b'.recs) ∧
+        content c.klen b <+: content c.klen b') := by
+  intro s s'
+  have hg := Acct.ginv_run c dup ops
+  have hs : (Acct.runG c dup ops).st = s := Acct.runG_st c dup ops
+  have hs' : (Acct.runGFrom c (Acct.runG c dup ops) more).st = s' := by
+    rw [← Acct.runG_append]; exact Acct.runG_st c dup _
+  have hinv : Acct.Inv c s := Acct.inv_run c dup ops
+  have hinv' : Acct.Inv c s' := Acct.inv_run c dup _
+  have hrun : s' = Acct.runFrom c s more := Acct.runFrom_append c _ ops more
+  constructor
+  · intro i l l' hl hl'
+    rw [← hs] at hl
+    rcases Acct.runGFrom_file_fate hg more i l hl with ⟨l₂, h₂, hle⟩ | ⟨_, hk, _⟩
+    · rw [hs', hl'] at h₂
+      cases h₂; exact hle
+    · rw [hs'] at hk
+      exact absurd (Acct.mem_keys_of_get hl') hk
+  · intro b hb b' hb' hid
+    have hpre : b.recs <+: b'.recs := by
+      rw [hrun] at hb'
+      exact Acct.runFrom_recs hinv more b hb b' hb' hid
+    refine ⟨hpre, Acct.held_file_len hinv hb, ?_, Acct.contentLen_prefix c.klen hpre,
+      fun hne => Acct.contentLen_lt_of_prefix c.klen hpre hne, content_prefix c.klen hpre⟩
+    rw [← hid]; exact Acct.held_file_len hinv' hb'
+
+/-- (2) Blob files never vanish.  A blob file of the work directory is later either still in the work directory
+    (same id, at least as long) or in `corrupted` — and no longer in the work directory — with the length (at least
+    the present one) it had when it was renamed there.  Nothing is deleted. -/
+theorem dir_blob_files_never_vanish (c : Acct.Cfg) (dup : Bool) (ops more : List Acct.AOp) :
+    let g := Acct.runG c dup ops
+    let g' := Acct.runG c dup (ops ++ more)
+    ∀ i l, Acct.get g.st.dir.blobs i = some l →
+      (∃ l', Acct.get g'.st.dir.blobs i = some l' ∧ l ≤ l') ∨
+        (i ∈ g'.st.dir.corrupted ∧ i ∉ Acct.keys g'.st.dir.blobs ∧ ∃ l', Acct.get g'.quar i = some l' ∧ l ≤ l') := by
+  intro g g' i l hl
+  have hg' : g' = Acct.runGFrom c g more := Acct.runG_append c dup ops more
+  rw [hg']
+  exact Acct.runGFrom_file_fate (Acct.ginv_run c dup ops) more i l hl
+
+/-- … one operation, exactly: a blob file leaves the work directory only by a restart without `ignore_corrupted`
+    that finds it unreadable; it is then in `corrupted`, where no file of its name was, with the length it had. -/
+theorem dir_blob_file_step (c : Acct.Cfg) (dup : Bool) (ops : List Acct.AOp) (op : Acct.AOp) :
+    let g := Acct.runG c dup ops
+    let g' := Acct.runG c dup (ops ++ [op])
+    ∀ i l, Acct.get g.st.dir.blobs i = some l →
+      (∃ l', Acct.get g'.st.dir.blobs i = some l' ∧ l ≤ l') ∨
+        ((∃ lazy bad, op = .restart lazy false bad ∧ i ∈ Acct.unreadable g.st bad) ∧
+          i ∉ g.st.dir.corrupted ∧ i ∈ g'.st.dir.corrupted ∧ i ∉ Acct.keys g'.st.dir.blobs ∧
+          Acct.get g'.quar i = some l) := by
+  intro g g' i l hl
+  have hg' : g' = Acct.stepG c g op := Acct.runG_append c dup ops [op]
+  rw [hg']
+  rcases Acct.stepG_file_fate (Acct.ginv_run c dup ops) op i l hl with h | ⟨h1, h2, h3, h4, h5⟩
+  · exact Or.inl h
+  · exact Or.inr ⟨Acct.mem_stepC_moved.1 h5, h2, h1, h3, h4⟩
+
+/-- … and a file of `corrupted` is never touched again: it stays there with the length it came with (no later
+    `rename` replaces it), and its id never names a blob file of the work directory again. -/
+theorem dir_quarantined_files_untouched (c : Acct.Cfg) (dup : Bool) (ops more : List Acct.AOp) (i l : Nat)
+    (h : Acct.get (Acct.runG c dup ops).quar i = some l) :
+    Acct.get (Acct.runG c dup (ops ++ more)).quar i = some l ∧
+      i ∈ (Acct.run c dup (ops ++ more)).dir.corrupted ∧ i ∉ Acct.keys (Acct.run c dup (ops ++ more)).dir.blobs := by
+  have hg := Acct.ginv_run c dup (ops ++ more)
+  have hq : Acct.get (Acct.runG c dup (ops ++ more)).quar i = some l := by
+    rw [Acct.runG_append]; exact Acct.runGFrom_quar_forever (Acct.ginv_run c dup ops) more i l h
+  have hc : i ∈ (Acct.run c dup (ops ++ more)).dir.corrupted := by
+    rw [← Acct.runG_st, ← hg.quarKeys]; exact Acct.mem_keys_of_get hq
+  exact ⟨hq, hc, (Acct.inv_run c dup _).corrFiles i hc⟩
+
+/-- Index files (they may be removed or replaced), exactly: an index file is afterwards untouched; or replaced by a
+    dump (`Blob::dump` in a dump pass, in `close`, in `init`) — then it was the index of a held blob (never of a blob
+    skipped under `ignore_corrupted`) and the new file validates against the blob file as it is after the operation;
+    or removed — by a restart without `ignore_corrupted` that has just moved its blob into `corrupted`
+    (`remove_index_by_blob_path`), and by nothing else. -/
+theorem dir_index_file_fate (c : Acct.Cfg) (dup : Bool) (ops : List Acct.AOp) (op : Acct.AOp) :
+    let s := Acct.run c dup ops
+    let s' := Acct.run c dup (ops ++ [op])
+    ∀ i f, Acct.get s.dir.idx i = some f →
+      Acct.get s'.dir.idx i = some f ∨
+        (∃ f', Acct.get s'.dir.idx i = some f' ∧ Acct.get s'.dir.blobs i = some f'.blobSize ∧
+          ∃ b ∈ s.store.blobs, b.id = i) ∨
+        (Acct.get s'.dir.idx i = none ∧ i ∈ s'.dir.corrupted ∧ i ∉ s.dir.corrupted ∧
+          ∃ lazy bad, op = .restart lazy false bad ∧ i ∈ Acct.unreadable s bad) := by
+  intro s s' i f hf
+  have hinv : Acct.Inv c s := Acct.inv_run c dup ops
+  have hs' : s' = Acct.step c s op := Acct.runFrom_append c _ ops [op]
+  have hfs := Acct.stepC_fileStep hinv op
+  rw [Acct.stepC_st] at hfs
+  rw [hs']
+  rcases Acct.step_idx_fate hinv op i f hf with h | ⟨f', h1, h2, h3⟩ | ⟨h1, h2⟩
+  · exact Or.inl h
+  · refine Or.inr (Or.inl ⟨f', h1, h2, ?_⟩)
+    rcases (hinv.files i).1 (hinv.idxFiles i (Acct.mem_keys_of_get hf)) with hb | hi
+    · exact hb
+    · exact absurd hi h3
+  · refine Or.inr (Or.inr ⟨h1, ?_, ?_, Acct.mem_stepC_moved.1 h2⟩)
+    · rw [hfs.corr]; exact List.mem_append_right _ h2
+    · exact fun hc => hinv.corrFiles i hc (hfs.mvFiles i h2)
+
+/-- (3) Blob ids are never reused, not even the id of a quarantined blob.  After every history: `next_blob_id` is
+    above every id of the work directory AND of `corrupted`; the blob files created over the whole history were
+    numbered 0, 1, 2, …, `next_blob_id - 1` in this order, so no id was used twice; and whatever the next operation
+    is, the files it creates get `next_blob_id`, `next_blob_id + 1`, … (the then-current value each), `next_blob_id`
+    moves by exactly their number, and none of these ids names a file of either directory or was ever used. -/
+theorem dir_ids_never_reused (c : Acct.Cfg) (dup : Bool) (ops : List Acct.AOp) :
+    let s := Acct.run c dup ops
+    let g := Acct.runG c dup ops
+    (∀ i, i ∈ Acct.keys s.dir.blobs ∨ i ∈ s.dir.corrupted → i < Acct.nextBlobId s) ∧
+      g.created = List.range (Acct.nextBlobId s) ∧ g.created.Nodup ∧
+      ∀ op, (Acct.stepC c s op).created =
+            List.range' (Acct.nextBlobId s) (Acct.stepC c s op).created.length ∧
+          Acct.nextBlobId (Acct.step c s op) = Acct.nextBlobId s + (Acct.stepC c s op).created.length ∧
+          ∀ i ∈ (Acct.stepC c s op).created,
+            i ∉ Acct.keys s.dir.blobs ∧ i ∉ s.dir.corrupted ∧ i ∉ g.created ∧
+              i ∈ Acct.keys (Acct.step c s op).dir.blobs := by
+  intro s g
+  have hinv : Acct.Inv c s := Acct.inv_run c dup ops
+  have hg := Acct.ginv_run c dup ops
+  have hcr : g.created = List.range (Acct.nextBlobId s) := by
+    rw [hg.created, Acct.runG_st]; rfl
+  refine ⟨hinv.below, hcr, by rw [hcr]; exact List.nodup_range, ?_⟩
+  intro op
+  have hfs := Acct.stepC_fileStep hinv op
+  rw [Acct.stepC_st] at hfs
+  refine ⟨hfs.ids, hfs.next, ?_⟩
+  intro i hi
+  obtain ⟨h1, h2, h3, h4⟩ := hfs.created_fresh hinv.below i hi
+  refine ⟨h2, h3, ?_, h4⟩
+  rw [hcr, List.mem_range]
+  exact Nat.not_lt.2 h1
+
+/-- … and the creations are exactly the new names of the work directory: afterwards it holds the files it held,
+    except the quarantined ones, and the created ones. -/
+theorem dir_created_are_the_new_files (c : Acct.Cfg) (dup : Bool) (ops : List Acct.AOp) (op : Acct.AOp) (i : Nat) :
+    let s := Acct.run c dup ops
+    i ∈ Acct.keys (Acct.step c s op).dir.blobs ↔
+      (i ∈ Acct.keys s.dir.blobs ∧ ¬ ∃ lazy bad, op = .restart lazy false bad ∧ i ∈ Acct.unreadable s bad) ∨
+        i ∈ (Acct.stepC c s op).created := by
+  intro s
+  have hfs := Acct.stepC_fileStep (Acct.inv_run c dup ops) op
+  rw [Acct.stepC_st] at hfs
+  rw [hfs.files, Acct.mem_stepC_moved]
+
+/-- (4) Quarantine never replaces.  When a restart without `ignore_corrupted` moves the unreadable blob files into
+    `corrupted`, no file of any of these names is there (so `rename` replaces nothing); `corrupted` afterwards is
+    what it was plus the moved files, without a duplicate; every moved file arrives with the length it had; every
+    file that was there keeps its length; and the blob files that are not moved keep theirs. -/
+theorem dir_quarantine_never_replaces (c : Acct.Cfg) (dup : Bool) (ops : List Acct.AOp) (lazy : Bool)
+    (bad : List Nat) :
+    let s := Acct.run c dup ops
+    let g := Acct.runG c dup ops
+    let g' := Acct.runG c dup (ops ++ [.restart lazy false bad])
+    (∀ i ∈ Acct.unreadable s bad, i ∉ s.dir.corrupted ∧ Acct.get g.quar i = none ∧
+        Acct.get g'.quar i = some (Acct.blobFileLen s.dir i)) ∧
+      g'.st.dir.corrupted = s.dir.corrupted ++ Acct.unreadable s bad ∧ g'.st.dir.corrupted.Nodup ∧
+      (∀ i l, Acct.get g.quar i = some l → Acct.get g'.quar i = some l) ∧
+      (∀ i l, Acct.get s.dir.blobs i = some l → i ∉ Acct.unreadable s bad →
+        Acct.get g'.st.dir.blobs i = some l) := by
+  intro s g g'
+  have hinv : Acct.Inv c s := Acct.inv_run c dup ops
+  have hg := Acct.ginv_run c dup ops
+  have hgs : g.st = s := Acct.runG_st c dup ops
+  have hg' : g' = Acct.stepG c g (.restart lazy false bad) := Acct.runG_append c dup ops [_]
+  have hfs := Acct.stepC_fileStep hg.inv (.restart lazy false bad)
+  have hmv : (Acct.stepC c g.st (.restart lazy false bad)).moved = Acct.unreadable s bad := by
+    rw [Acct.stepC_moved, hgs]
+  have hUc : ∀ i ∈ Acct.unreadable s bad, i ∉ s.dir.corrupted :=
+    fun i hi hc => hinv.corrFiles i hc (Acct.mem_unreadable.1 hi).1
+  have hcorr : g'.st.dir.corrupted = s.dir.corrupted ++ Acct.unreadable s bad := by
+    rw [hg']
+    show (Acct.stepC c g.st (.restart lazy false bad)).st.dir.corrupted = _
+    rw [hfs.corr, hmv, hgs]
+  refine ⟨?_, hcorr, ?_, ?_, ?_⟩
+  · intro i hi
+    refine ⟨hUc i hi, ?_, ?_⟩
+    · apply Acct.get_eq_none_iff.2
+      rw [hg.quarKeys, hgs]; exact hUc i hi
+    · rw [hg']
+      show Acct.get (Acct.quarantine g.st.dir g.quar (Acct.stepC c g.st (.restart lazy false bad)).moved) i = _
+      rw [Acct.get_quarantine, hmv, if_pos hi, hgs]
+  · rw [hg', Acct.stepG_st]; exact (Acct.inv_step hg.inv _).corrNodup
+  · intro i l hq
+    rw [hg']; exact (Acct.stepG_quar_forever hg (.restart lazy false bad) i l hq).1
+  · intro i l hl hnu
+    rw [hg', Acct.stepG_st, hgs]
+    exact Acct.restart_get_blobs hinv lazy false bad i l hl hnu
+
+/-- … or leaves it in place when told to ignore it: a restart under `ignore_corrupted` moves nothing — `corrupted`
+    is what it was, and EVERY blob file of the work directory, the unreadable ones included, is there afterwards with
+    the length it had; the unreadable ones are not held, and their ids stay reserved. -/
+theorem dir_ignored_left_in_place (c : Acct.Cfg) (dup : Bool) (ops : List Acct.AOp) (lazy : Bool) (bad : List Nat) :
+    let s := Acct.run c dup ops
+    let r := Acct.run c dup (ops ++ [.restart lazy true bad])
+    r.dir.corrupted = s.dir.corrupted ∧
+      (∀ i l, Acct.get s.dir.blobs i = some l → Acct.get r.dir.blobs i = some l) ∧
+      (∀ i ∈ Acct.unreadable s bad, (∀ b ∈ r.store.blobs, b.id ≠ i) ∧ i < Acct.nextBlobId r) := by
+  intro s r
+  have hinv : Acct.Inv c s := Acct.inv_run c dup ops
+  have hr : r = Acct.restart c s lazy true bad := Acct.runFrom_append c _ ops [_]
+  have hI := Acct.restart_ignores hinv lazy bad
+  rw [hr]
+  refine ⟨hI.2.2.1, ?_, fun i hi => (hI.1 i hi).2⟩
+  intro i l hl
+  exact Acct.restart_get_blobs hinv lazy true bad i l hl (by simp)
+
+/-- `next_blob_id` never decreases, along every history (quarantines included: the ids of `corrupted` count) -/
+theorem dir_next_blob_id_monotone (c : Acct.Cfg) (dup : Bool) (ops more : List Acct.AOp) :
+    Acct.nextBlobId (Acct.run c dup ops) ≤ Acct.nextBlobId (Acct.run c dup (ops ++ more)) := by
+  have : Acct.run c dup (ops ++ more) = Acct.runFrom c (Acct.run c dup ops) more := Acct.runFrom_append c _ ops more
+  rw [this]
+  exact Acct.runFrom_nextId_le (Acct.inv_run c dup ops) more
+
+/-! ### (5) counter-models: what the theorems above exclude -/
+
+namespace C07Dir
+
+def cfg : Acct.Cfg := { klen := 4, idxLen := fun rs => 100 + 10 * rs.length }
+def w (k ts len : Nat) : Acct.AOp := .write k ts none ⟨len, 7⟩ false false
+
+/-- blobs 0, 1, 2 (one record each); session B finds blob 2 unreadable and quarantines it (blobs 0 and 1 are
+    usable: no new blob); session C finds blobs 0 and 1 unreadable: every blob file of the work directory is
+    quarantined, and `init` has to create a fresh active blob -/
+def ops : List Acct.AOp :=
+  [w 1 1 3, .closeActive, w 2 2 3, .closeActive, w 3 3 3, .restart false false [2], .restart false false [0, 1]]
+
+/-- a write into the fresh blob, which the next session finds unreadable -/
+def more : List Acct.AOp := [w 4 4 10, .restart false false [2]]
+
+/-- a storage without an active blob, and a creation of the next one that fails after 4 bytes of the header -/
+def fops : List Acct.Buggy.FOp := [.op (w 1 1 3), .op .closeActive, .createFails 4]
+
+end C07Dir
+
+open C07Dir in
+/-- (5a) seeded change C07-4 (`reserve_old_corrupted_blob_ids` only at the end of `init_from_existing`, after the
+    fresh active blob has been created).  The code as it is numbers the fresh blob of session C 3; the changed code
+    numbers it 2 — the id of the file quarantined by session B: `created` has 2 twice ((3) fails), the id 2 is in both
+    directories (the `Acct.Inv` clause behind (4) fails), and when that blob is quarantined in turn, `rename`
+    replaces `corrupted/2`: the 92 bytes quarantined by session B are gone ((4) and (2) fail). -/
+theorem dir_c074_reuses_quarantined_id :
+    (let g := Acct.runG cfg true ops
+     g.created = [0, 1, 2, 3] ∧ g.st.dir.blobs = [(3, 20)] ∧ g.st.dir.corrupted = [2, 0, 1] ∧
+       Acct.nextBlobId g.st = 4 ∧ g.quar = [(2, 92), (0, 92), (1, 92)]) ∧
+    (let g := Acct.Buggy.runG074 cfg true ops
+     g.created = [0, 1, 2, 2] ∧ ¬ g.created.Nodup ∧ g.st.dir.blobs = [(2, 20)] ∧ g.st.dir.corrupted = [2, 0, 1] ∧
+       2 ∈ Acct.keys g.st.dir.blobs ∧ 2 ∈ g.st.dir.corrupted ∧ Acct.get g.quar 2 = some 92) ∧
+    (let g := Acct.Buggy.runG074 cfg true (ops ++ [w 4 4 10])
+     let g' := Acct.Buggy.runG074 cfg true (ops ++ more)
+     Acct.unreadable g.st [2] = [2] ∧ 2 ∈ g.st.dir.corrupted ∧ Acct.get g.st.dir.blobs 2 = some 99 ∧
+       Acct.get g'.quar 2 = some 99 ∧ g'.quar.length = 3) := by
+  decide
+
+open C07Dir in
+/-- (5a') the same late reservation in `init_new`, on a start from an empty work directory: a lazy start
+    quarantines the only blob 0 and holds nothing; the next start finds no blob file.  The code as it is creates blob
+    1; with the reservation after the creation it creates blob 0 again, while `corrupted/0` exists. -/
+theorem dir_late_reservation_on_empty_dir :
+    (let g := Acct.runG cfg true [w 1 1 3, .restart true false [0]]
+     g.st.dir.blobs = [] ∧ g.st.dir.corrupted = [0] ∧ Acct.nextBlobId g.st = 1) ∧
+    (let g := Acct.runG cfg true [w 1 1 3, .restart true false [0], .restart false false []]
+     g.created = [0, 1] ∧ g.st.dir.blobs = [(1, 20)] ∧ g.st.dir.corrupted = [0] ∧ Acct.nextBlobId g.st = 2) ∧
+    (let g := Acct.Buggy.runGLate cfg true [w 1 1 3, .restart true false [0], .restart false false []]
+     g.created = [0, 0] ∧ ¬ g.created.Nodup ∧ g.st.dir.blobs = [(0, 20)] ∧ g.st.dir.corrupted = [0] ∧
+       0 ∈ Acct.keys g.st.dir.blobs ∧ 0 ∈ g.st.dir.corrupted) := by
+  decide
+
+open C07Dir in
+/-- (5b) seeded change C07-3 (`ensure_active_blob_exists` hands the id back when `Blob::open_new` fails).  The failed
+    creation leaves the file `1` (4 bytes) in the work directory.  The code as it is keeps id 1 consumed, and the
+    retry creates blob 2; the changed code hands 1 back — `next_blob_id` = 1 with a blob file 1 in the directory ((3)
+    fails) — and the retry creates the file 1 a second time, over the leftover one. -/
+theorem dir_c073_reuses_id_of_leftover_file :
+    (let g := Acct.Buggy.runGF false cfg true (fops ++ [.op .createActive])
+     g.created = [0, 1, 2] ∧ g.st.dir.blobs = [(0, 92), (1, 4), (2, 20)] ∧ Acct.nextBlobId g.st = 3) ∧
+    (let g := Acct.Buggy.runGF true cfg true fops
+     1 ∈ Acct.keys g.st.dir.blobs ∧ Acct.nextBlobId g.st = 1) ∧
+    (let g := Acct.Buggy.runGF true cfg true (fops ++ [.op .createActive])
+     g.created = [0, 1, 1] ∧ ¬ g.created.Nodup ∧ g.st.dir.blobs = [(0, 92), (1, 20)]) := by
+  decide
+
+/-- the code as it is, with such failures: a failed creation keeps `Acct.Inv` (so everything above holds along
+    histories that contain failed creations), consumes the id, and is a creation like any other: the file gets
+    `next_blob_id`, no file of either directory has that name -/
+theorem dir_failed_creation_harmless {c : Acct.Cfg} {s : Acct.State} (h : Acct.Inv c s) (len : Nat) :
+    let l := Acct.Buggy.createFailsC false s len
+    Acct.Inv c l.st ∧ l.created = List.range' (Acct.nextBlobId s) l.created.length ∧
+      Acct.nextBlobId l.st = Acct.nextBlobId s + l.created.length ∧
+      (∀ i ∈ l.created, i ∉ Acct.keys s.dir.blobs ∧ i ∉ s.dir.corrupted) ∧
+      (∀ i v, Acct.get s.dir.blobs i = some v → Acct.get l.st.dir.blobs i = some v) := by
+  intro l
+  obtain ⟨h1, h2⟩ := Acct.inv_createFails h len
+  refine ⟨h1, h2.ids, h2.next, fun i hi => ?_, ?_⟩
+  · have := h2.created_fresh h.below i hi
+    exact ⟨this.2.1, this.2.2.1⟩
+  · intro i v hv
+    show Acct.get (Acct.Buggy.createFailsC false s len).st.dir.blobs i = some v
+    unfold Acct.Buggy.createFailsC
+    cases s.store.active with
+    | some a => exact hv
+    | none =>
+      show Acct.get (Acct.put s.dir.blobs s.store.nextId len) i = some v
+      rw [Acct.get_put, if_neg (Nat.ne_of_lt (h.below i (Or.inl (Acct.mem_keys_of_get hv))))]
+      exact hv
+
+/-! ### non-vacuity (directory level): histories with quarantines under both settings of `ignore_corrupted` -/
+
+namespace C07Dir
+
+/-- two blobs, 0 closed with its index dumped by `closeActive`, 1 active -/
+def ops1 : List Acct.AOp := [w 1 1 3, .closeActive, w 2 2 3]
+
+/-- a delete into the closed blob 0; a restart that finds the active blob 1 unreadable and SKIPS it
+    (`ignore_corrupted`): blob 0 becomes the active blob; a write into it; a restart without the flag, which
+    quarantines the skipped blob 1 -/
+def more1 : List Acct.AOp := [.delete 1 5 none true, .restart false true [1], w 3 3 3, .restart false false []]
+
+end C07Dir
+
+section
+open C07Dir
+
+-- (1): blob file 0 grows 92 → 161 → 233 across the two restarts; blob 1 (skipped, then quarantined) keeps its 92 bytes
+example :
+    (Acct.run cfg true ops1).dir.blobs = [(0, 92), (1, 92)] ∧
+      (Acct.run cfg true (ops1 ++ more1.take 2)).dir.blobs = [(0, 161), (1, 92)] ∧
+      (Acct.run cfg true (ops1 ++ more1.take 2)).ignored = [1] ∧
+      (Acct.run cfg true (ops1 ++ more1)).dir.blobs = [(0, 233)] ∧
+      (Acct.run cfg true (ops1 ++ more1)).dir.corrupted = [1] ∧
+      (Acct.runG cfg true (ops1 ++ more1)).quar = [(1, 92)] := by decide
+example := dir_blob_files_only_grow cfg true ops1 more1
+-- … the held blob 0 has 1 record before and 3 after: `dir_blob_files_only_grow` speaks about a proper extension
+example : ((Acct.run cfg true ops1).store.blobs.map fun b => (b.id, b.recs.length)) = [(0, 1), (1, 1)] ∧
+    ((Acct.run cfg true (ops1 ++ more1)).store.blobs.map fun b => (b.id, b.recs.length)) = [(0, 3)] := by decide
+-- (2): blob file 1 of `ops1` ends in `corrupted` with its 92 bytes, blob file 0 stays (longer)
+example : (∃ l', Acct.get (Acct.runG cfg true (ops1 ++ more1)).st.dir.blobs 0 = some l' ∧ 92 ≤ l') ∧
+    (1 ∈ (Acct.runG cfg true (ops1 ++ more1)).st.dir.corrupted ∧
+      ∃ l', Acct.get (Acct.runG cfg true (ops1 ++ more1)).quar 1 = some l' ∧ 92 ≤ l') := by decide
+example := dir_blob_files_never_vanish cfg true ops1 more1 1 92 (by decide)
+example := dir_blob_file_step cfg true (ops1 ++ more1.take 3) (.restart false false []) 1 92 (by decide)
+example := dir_quarantined_files_untouched cfg true C07Dir.ops [w 9 9 1, .restart true false [3]] 2 92 (by decide)
+-- index files: under `ignore_corrupted` the index file of the skipped blob 1 (written by `close`) and the stale one
+-- of blob 0 stay; the restart that quarantines blob 1 removes its index file and replaces that of blob 0 (it
+-- validates: `blob_size` 233 = length of the blob file)
+example :
+    ((Acct.run cfg true (ops1 ++ more1.take 3)).dir.idx.map fun p => (p.1, p.2.len, p.2.blobSize)) =
+        [(0, 110, 92), (1, 110, 92)] ∧
+      ((Acct.run cfg true (ops1 ++ more1)).dir.idx.map fun p => (p.1, p.2.len, p.2.blobSize)) =
+        [(0, 130, 233)] := by decide
+example := dir_index_file_fate cfg true (ops1 ++ more1.take 3) (.restart false false []) 1 ⟨110, 92⟩ (by decide)
+example := dir_index_file_fate cfg true (ops1 ++ more1.take 3) (.restart false false []) 0 ⟨110, 92⟩ (by decide)
+-- (3): four creations 0, 1, 2, 3 over `ops`, the last one by `init` after everything was quarantined;
+-- a write with rotation into a storage without an active blob creates two files in one operation
+example : (Acct.runG cfg true C07Dir.ops).created = [0, 1, 2, 3] ∧
+    Acct.nextBlobId (Acct.run cfg true C07Dir.ops) = 4 ∧
+    (Acct.stepC cfg (Acct.run cfg true (ops1 ++ [.closeActive])) (.write 9 9 none ⟨1, 1⟩ true true)).created =
+      [2, 3] := by decide
+example := dir_ids_never_reused cfg true C07Dir.ops
+-- (4): the second restart of `ops` moves blobs 0 and 1 next to blob 2; a restart under `ignore_corrupted` moves nothing
+example : Acct.unreadable (Acct.run cfg true (C07Dir.ops.take 6)) [0, 1] = [0, 1] ∧
+    (Acct.run cfg true (C07Dir.ops.take 6)).dir.corrupted = [2] ∧
+    (Acct.runG cfg true C07Dir.ops).quar = [(2, 92), (0, 92), (1, 92)] := by decide
+example := dir_quarantine_never_replaces cfg true (C07Dir.ops.take 6) false [0, 1]
+example : Acct.unreadable (Acct.run cfg true (ops1 ++ more1.take 1)) [1] = [1] ∧
+    (Acct.run cfg true (ops1 ++ more1.take 2)).dir.blobs = (Acct.run cfg true (ops1 ++ more1.take 1)).dir.blobs := by
+  decide
+example := dir_ignored_left_in_place cfg true (ops1 ++ more1.take 1) false [1]
+
+end
+
+/-
+NOT YET PROVED (C07):
+* trace level (`Fs.run`) and directory level (`Acct.run`) are two models of the same code, each tied to the
+  implementation by its own correspondence check (file events / `fcounts`); there is no theorem relating a `Fs` trace to
+  the `Acct` directory it produces.  In particular `Acct` keeps lengths, not bytes: "moved to `corrupted` intact" is
+  `rename` by construction of the model (the ghost map `quar` records the length at the time of the move, and
+  `dir_quarantined_files_untouched` / `dir_quarantine_never_replaces` say that nothing replaces or removes the file
+  afterwards); the byte-level statement for held blobs is `dir_blob_files_only_grow` (`content` prefix).
+* `Acct.stepC` / the ghost log are instrumentation written next to the model (`stepC_st`: same state;
+  `dir_created_are_the_new_files`: the logged creations are exactly the new names in the work directory); they are not
+  themselves part of the lock-step correspondence.
+* failed creations (`Blob::open_new` failing after the file exists) are not an `Acct.AOp`; `dir_failed_creation_harmless`
+  proves that such a step keeps `Acct.Inv` and consumes the id, so the invariants hold along histories containing them,
+  but the run-level theorems are stated over `Acct.run` only.  The leftover file is modelled as an unreadable file of
+  the work directory (ghost list `ignored`).
+* crashes between the file operations of one `Acct` step, `cut`/`dflip` damage that leaves a blob readable, and removal
+  of files from outside are outside the model (see the list at the end of `Pearl/Props/C15.lean`).
+* read-only operations: the directory-level getters are functions of the state (`Acct.report : State → …`), there is
+  no `Acct.AOp` for them; "issue no file writes" is the trace-level `queries_emit_nothing` / `queries_transparent`.
+-/
 
 end Pearl
